@@ -423,7 +423,9 @@ Section WithFacts.
   (* the field's value in every entry of the surviving wrapper's `defaults` list.
      explicit = per registered wrapper, the field's value in add_arguments(default=...) (top-level wrappers only).
      A top-level wrapper without default has `defaults == []` RE-CREATED on every access (defaults_top_fresh), so extending
-     it in merge() is lost; a member wrapper's defaults are seeded from the member field's default_factory, one per destination. *)
+     it in merge() is lost; a member wrapper's defaults are seeded from the member field's default_factory, one per destination.
+     (With defaults_top_fresh = false the entries seeded by member wrappers of a mixed layout are not described here; such a tree
+     breaks bridge_defaults_property and shows up as mismatches.) *)
   Definition parent_defaults (first_top : bool) (n : nat) (cd : option val) (explicit : list (option val)) : list val :=
     if first_top then
       if (match explicit with Some _ :: _ => true | _ => false end) || negb defaults_top_fresh
